@@ -276,9 +276,12 @@ def check(an: Analysis) -> None:
             if not is_name(unwrap(val), want):
                 ob.fail(wm, r.ast, f"when_missing returns `{stmt_text(r.ast.value)}` instead of `{want}` when the checked value {'is' if is_m else 'is not'} MISSING")  # type: ignore[union-attr]
     # the Missing validator accepts exactly MISSING
-    val = prog.fn_opt("state.validation._prepare_validator_of_missing.validator")
-    if val is None:
-        raise AnalysisError("Missing validator (state.validation._prepare_validator_of_missing.validator) not found")
+    from .c04 import factory_closures
+
+    fac_m = factory_closures(an).get("missing")  # VALIDATORS[Missing] -> factory -> its one-parameter closure(s), whatever their names
+    if fac_m is None or len(fac_m[1]) != 1:
+        raise AnalysisError("Missing validator (the one-parameter closure of VALIDATORS[Missing]'s factory) not found")
+    val = fac_m[1][0]
     gv = an.cfg(val)
     vp = val.param_names()[0]
 
